@@ -187,3 +187,171 @@ Proof.
   - destruct R as (R1 & _). destruct (werr_cases _ _ R1 Hnf) as (Hc & ->).
     destruct (sr_child _); destruct Hc as [->|[->|[->| ->]]]; reflexivity.
 Qed.
+
+(* ---- a following walk never ends on a symbolic link -------------------------------------------------- *)
+Lemma search_follow_nosym (h : heap) (v : view) (slm : slmode) :
+  slmode_eqb slm SlLstat = false ->
+  forall fuel vol p0 pi sl saved r c,
+    node_is_dir h vol = true -> node_is_dir h p0 = true ->
+    search_loop fuel h v slm vol p0 pi sl saved = r -> sr_err r = EFileExists -> sr_child r = Some c ->
+    forall t m, get h c <> Some (NSym t m).
+Proof.
+  intros Hslm. induction fuel as [|fuel IH]; intros vol p0 pi sl saved r c Hvd Hpd Hr He Hc t0 m0.
+  - subst r. discriminate He.
+  - rewrite search_loop_S in Hr. destruct (pi_next (v_os v) pi) as [ok pi1]. cbv zeta in Hr.
+    destruct (negb ok).
+    { subst r. cbn in Hc. injection Hc as <-. destruct (node_is_dir_get _ _ Hpd) as (ch & m & Hg). congruence. }
+    destruct (alookup str_eqb (pi_part pi1) (children h p0)) as [n|]; [|subst r; discriminate Hc].
+    destruct (get h n) as [[ch m|dt k i m|t m]|] eqn:Hgn; [| | |subst r; discriminate He].
+    + destruct (pi_is_last pi1); [subst r; cbn in Hc; injection Hc as <-; congruence|].
+      destruct (check_permission m OpenLookup (v_user v)); [|subst r; discriminate He].
+      apply (IH vol n pi1 sl saved r c); auto. unfold node_is_dir. rewrite Hgn. reflexivity.
+    + destruct (pi_is_last pi1); subst r; [cbn in Hc; injection Hc as <-; congruence|discriminate He].
+    + destruct (Nat.ltb slCountMax (S sl)); [subst r; discriminate He|].
+      rewrite Hslm, andb_false_r in Hr.
+      destruct (pi_replace_part (v_os v) pi1 t) as [reset pi2].
+      eapply (IH vol (if reset then vol else p0)); eauto. destruct reset; assumption.
+Qed.
+
+Lemma resolve_nosym (s : fsys) (sv : sview) (slm : slmode) (cs : list str) (c : nat) :
+  step_hyps s sv -> slmode_eqb slm SlLstat = false ->
+  sr_err (search_node s (sv_view sv) (abs_path cs) slm) = EFileExists ->
+  sr_child (search_node s (sv_view sv) (abs_path cs) slm) = Some c ->
+  forall t m, get (f_heap s) c <> Some (NSym t m).
+Proof.
+  intros H Hslm He Hc. rewrite (search_node_linux s (sv_view sv) _ slm (sh_os _ _ H)) in He, Hc.
+  exact (search_follow_nosym (f_heap s) (sv_view sv) slm Hslm SEARCH_FUEL _ _ _ 0 None _ c
+           (sh_root _ _ H) (sh_root _ _ H) eq_refl He Hc).
+Qed.
+
+(* ---- Chmod --------------------------------------------------------------------------------------------- *)
+Theorem step_chmod (s : fsys) (sv : sview) (cs : list str) (mode : N) :
+  step_hyps s sv -> path_ok s sv SlEval cs ->
+  (fst (chmod s (sv_view sv) (abs_path cs) mode), proj_res Linux (snd (chmod s (sv_view sv) (abs_path cs) mode)))
+  = k_chmod s sv (abs_path cs) mode.
+Proof.
+  intros H Hp. pose proof (resolve s sv SlEval cs H Hp) as R. destruct Hp as (_ & _ & _ & Hnf).
+  pose proof (resolve_nosym s sv SlEval cs) as Hns.
+  unfold chmod, k_chmod. change (follow_of SlEval) with true in R.
+  destruct (klookup s sv false true (abs_path cs)) as [par kind name n|par name md| |e]; cbn [walk_rel] in R.
+  - destruct R as (R1 & R2 & R3 & _). specialize (Hns n H eq_refl R1 R2). rewrite R2, R1. cbn [is_file_exists negb].
+    unfold owner_or_root, set_mode_ok. rewrite (sh_admin _ _ H). cbn [orb negb andb].
+    destruct (get (f_heap s) n) as [[ch m|dt k i m|t m]|]; try congruence;
+      rewrite orb_true_r; reflexivity.
+  - destruct R as (R1 & R2 & _). rewrite R2, R1. reflexivity.
+  - destruct R.
+  - destruct R as (R1 & _). destruct (werr_cases _ _ R1 Hnf) as (Hc & ->).
+    destruct (sr_child _); destruct Hc as [->|[->|[->| ->]]]; reflexivity.
+Qed.
+
+(* ---- Truncate ------------------------------------------------------------------------------------------ *)
+Theorem step_truncate (s : fsys) (sv : sview) (cs : list str) (size : Z) :
+  step_hyps s sv -> path_ok s sv SlEval cs ->
+  (fst (truncate s (sv_view sv) (abs_path cs) size), proj_res Linux (snd (truncate s (sv_view sv) (abs_path cs) size)))
+  = k_truncate s sv (abs_path cs) size.
+Proof.
+  intros H Hp. pose proof (resolve s sv SlEval cs H Hp) as R. destruct Hp as (_ & _ & _ & Hnf).
+  unfold truncate, k_truncate, win. rewrite (sh_os _ _ H). cbn [ostype_eqb negb]. rewrite andb_true_r.
+  destruct (Z.ltb size 0) eqn:Hsz; [reflexivity|].
+  change (follow_of SlEval) with true in R.
+  destruct (klookup s sv false true (abs_path cs)) as [par kind name n|par name md| |e]; cbn [walk_rel] in R.
+  - destruct R as (R1 & R2 & R3 & _). rewrite R2, R1. cbn [is_file_exists negb].
+    destruct (get (f_heap s) n) as [[ch m|dt k i m|t m]|] eqn:Hg; [reflexivity| |reflexivity|reflexivity].
+    rewrite (admin_kperm s sv n 2 H) by congruence. reflexivity.
+  - destruct R as (R1 & R2 & _). rewrite R1. reflexivity.
+  - destruct R.
+  - destruct R as (R1 & _). destruct (werr_cases _ _ R1 Hnf) as (Hc & ->).
+    destruct Hc as [->|[->|[->| ->]]]; reflexivity.
+Qed.
+
+(* ---- parent-mode lookups of the specification, on a path ending in a proper name ----------------------- *)
+Lemma klookup_pm (s : fsys) (sv : sview) (follow : bool) (w : list str) (cl : str) :
+  Forall good_comp (w ++ [cl]) ->
+  let K0 := klookup s sv false false (abs_path (w ++ [cl])) in
+  K0 <> WErr EFUEL ->
+  (forall par kind name n, K0 = WNode par kind name n -> kind = LNorm /\ name = cl) /\
+  (forall par name md, K0 = WNeg par name md -> name = cl) /\
+  klookup s sv true follow (abs_path (w ++ [cl])) =
+    match K0 with
+    | WNode par _ _ _ => WParent par LNorm cl false
+    | WNeg par _ _ => WParent par LNorm cl false
+    | K => K
+    end.
+Proof.
+  intros Hg K0. subst K0. rewrite !(klookup_abs_path s sv _ _ (w ++ [cl]) Hg).
+  assert (E : match w ++ [cl] with [] => true | _ => false end = false) by (destruct w; reflexivity).
+  rewrite E. apply kwalk_pm. apply Forall_app in Hg as (_ & Hg). inversion Hg; assumption.
+Qed.
+
+Lemma klookup_final (s : fsys) (sv : sview) (follow : bool) (cs : list str) :
+  Forall good_comp cs ->
+  match klookup s sv false follow (abs_path cs) with
+  | WNode par LNorm name n =>
+      alookup str_eqb name (children (f_heap s) par) = Some n /\ node_is_dir (f_heap s) par = true
+      /\ kperm (f_heap s) par 1 (v_user (sv_view sv)) = true
+  | WNeg par name _ =>
+      alookup str_eqb name (children (f_heap s) par) = None /\ node_is_dir (f_heap s) par = true
+      /\ kperm (f_heap s) par 1 (v_user (sv_view sv)) = true
+  | _ => True
+  end.
+Proof.
+  intros Hg. rewrite (klookup_abs_path s sv false follow cs Hg).
+  apply (kwalk_final WALK_FUEL (f_heap s) _ _ follow _ cs 0 _ _ eq_refl).
+Qed.
+
+Lemma mkdir_nonempty (s : fsys) (v : view) (name : str) (perm : N) :
+  name <> [] ->
+  mkdir s v name perm =
+    let r := search_node s v name SlLstat in
+    if negb (is_not_exist (sr_err r)) || negb (pi_is_last (sr_pi r)) then (s, RFail (sr_err r))
+    else match sr_parent r with
+         | None => (s, RPanic)
+         | Some parent =>
+             if negb (perm_on (f_heap s) parent (N.lor OpenWrite OpenLookup) (v_user v)) then (s, RFail EPermDenied)
+             else
+               let part := pi_part (sr_pi r) in
+               match alookup str_eqb part (children (f_heap s) parent) with
+               | Some _ => (s, RFail EFileExists)
+               | None => (fst (create_dir s v parent part perm), ROk)
+               end
+         end.
+Proof. destruct name; [congruence|reflexivity]. Qed.
+
+Lemma abs_path_nonempty (cs : list str) : abs_path cs <> [].
+Proof. discriminate. Qed.
+
+Lemma land_dir_bits (a : N) : N.land (N.land a (511 + MODE_STICKY)) FILE_MODE_MASK = N.land a (511 + MODE_STICKY).
+Proof. rewrite <- N.land_assoc. reflexivity. Qed.
+
+(* the parent of a new entry has its set-group-id bit clear (inheritance is a listed deviation) *)
+Definition no_setgid_parent (s : fsys) (sv : sview) (cs : list str) : Prop :=
+  forall par name md, klookup s sv false false (abs_path cs) = WNeg par name md ->
+                      is_setgid (m_mode (meta_of (f_heap s) par)) = false.
+
+(* ---- Mkdir ----------------------------------------------------------------------------------------------- *)
+Theorem step_mkdir (s : fsys) (sv : sview) (w : list str) (cl : str) (perm : N) :
+  step_hyps s sv -> path_ok s sv SlLstat (w ++ [cl]) -> no_setgid_parent s sv (w ++ [cl]) ->
+  let p := abs_path (w ++ [cl]) in
+  (fst (mkdir s (sv_view sv) p perm), proj_res Linux (snd (mkdir s (sv_view sv) p perm))) = k_mkdir s sv p perm.
+Proof.
+  intros H Hp Hsg p. pose proof (resolve s sv SlLstat (w ++ [cl]) H Hp) as R.
+  destruct Hp as (Hg & Hk1 & _ & Hnf). change (follow_of SlLstat) with false in R, Hk1. change (precise_of SlLstat) with true in R.
+  destruct (klookup_pm s sv false w cl Hg Hk1) as (Hkn & Hkg & Hpm).
+  unfold p. rewrite (mkdir_nonempty s (sv_view sv) _ perm (abs_path_nonempty _)). cbv zeta.
+  unfold k_mkdir. rewrite Hpm. unfold no_setgid_parent in Hsg.
+  pose proof (klookup_final s sv false (w ++ [cl]) Hg) as Hfin.
+  destruct (klookup s sv false false (abs_path (w ++ [cl]))) as [par kind name n|par name md| |e] eqn:HK; cbn [walk_rel] in R.
+  - destruct (Hkn _ _ _ _ eq_refl) as (-> & ->). destruct Hfin as (F1 & _). destruct R as (R1 & _).
+    rewrite R1, F1. reflexivity.
+  - pose proof (Hkg _ _ _ eq_refl) as ->. destruct Hfin as (F1 & F2 & _). destruct R as (R1 & R2 & R3 & R4).
+    destruct (at_name_views _ _ _ _ _ _ (R4 eq_refl)) as (V1 & V2 & _).
+    rewrite R1, V2, R3, V1, F1. cbn [is_not_exist negb orb].
+    rewrite (admin_perm_on s sv par _ H) by (apply node_is_dir_valid; exact F2).
+    rewrite (admin_kperm s sv par 3 H) by (apply node_is_dir_valid; exact F2). cbn [negb].
+    unfold create_dir, alloc_child, kmeta, new_meta, new_owner_gid. rewrite (Hsg _ _ _ eq_refl), (sh_os _ _ H). cbn [fst dir_mode andb].
+    rewrite land_dir_bits. reflexivity.
+  - destruct R.
+  - destruct R as (R1 & R2). destruct (werr_cases _ _ R1 Hnf) as (Hc & ->).
+    destruct Hc as [Hc|[Hc|[Hc|Hc]]]; rewrite Hc in *; try reflexivity.
+    rewrite (R2 eq_refl eq_refl). reflexivity.
+Qed.
